@@ -323,6 +323,53 @@ func init() {
 			call(fr.i, fr, 0, args[1], nil)
 			return nil, true
 		},
+		"verifConcurrent": func(fr *frame, args []value) (value, bool) {
+			// verifConcurrent(maxPreemptions int, raceCheck bool, f func()): f runs as the main
+			// goroutine of a coroutine scheduler; returns when all goroutines are done
+			if Sched != nil {
+				panic(engineBug("nested verifConcurrent"))
+			}
+			s := newScheduler(args[0].(int), args[1].(bool))
+			if v := Params["jitter_ns"]; v != "" {
+				fmt.Sscanf(v, "%d", &s.jitter)
+			}
+			if v := Params["max_clock_advance_ns"]; v != "" {
+				fmt.Sscanf(v, "%d", &s.maxAdv)
+			}
+			Sched = s
+			call(fr.i, fr, 0, args[2], nil)
+			s.waitAll()
+			for _, r := range s.races {
+				X.Notes = append(X.Notes, r)
+			}
+			nr := len(s.races)
+			s.teardown()
+			Sched = nil
+			if nr > 0 {
+				X.violation("data-race", s.races[0])
+			}
+			return nil, true
+		},
+		"verifGo": func(fr *frame, args []value) (value, bool) {
+			if Sched == nil {
+				panic(engineBug("verifGo outside verifConcurrent"))
+			}
+			Sched.spawn(fr.i, args[0], nil)
+			Sched.yieldPoint("go", false)
+			return nil, true
+		},
+		"verifWaitAll": func(fr *frame, args []value) (value, bool) {
+			if Sched != nil {
+				Sched.waitAll()
+			}
+			return nil, true
+		},
+		"verifNow": func(fr *frame, args []value) (value, bool) {
+			if Sched == nil {
+				return int64(0), true
+			}
+			return mkVal(types.Int64, Sched.now), true
+		},
 		"verifSummarize": func(fr *frame, args []value) (value, bool) {
 			return nil, true
 		},
